@@ -1067,6 +1067,10 @@ func (e *Eng) finish(fr *Frame) {
 			continue
 		}
 		for _, c := range ic.Ensures {
+			if strings.HasPrefix(c.Label, "ghost_") {
+				// history ghosts (call counters) are advanced by the call itself, not by the callee's code
+				continue
+			}
 			t := e.evalSpecArgs(c.SpecFn, e.ifaceArgs(), results, nil, st, e.entry).(T)
 			props := strings.Fields(strings.ReplaceAll(c.Property, ",", " "))
 			if len(props) == 0 {
